@@ -11,6 +11,7 @@ import HealSparse.Model.Api
 import HealSparse.Generated.OpsTable
 import HealSparse.Props.C04
 import HealSparse.Props.C02
+import HealSparse.Lemmas.ApiMulti
 namespace HS
 namespace C06
 
@@ -277,5 +278,706 @@ example : ufuncCell "fmax" (.int 32 true) (.num 0 0) (.num (-5) 0) ≠ .num (-5)
 example : Inv (V := Int) ⟨3, 1⟩ ⟨-1, fun x => x != -1⟩ ⟨#[4, -2, -2], #[-1, -1, 7, -1, -1, 9]⟩ ∧
     Inv (V := Int) ⟨3, 1⟩ ⟨-1, fun x => x != -1⟩ ⟨#[2, 2, -4], #[-1, -1, 3, 4, -5, -1]⟩ := by decide
 
+/-! ## API level: `apiMultiOp` on the rows of the generated table -/
+
+section api
+open ApiMulti WFApi
+
+/-- shape of a row of the generated table, decided row by row: the driver folds with the row
+    itself; it is a named operation; `fill_with_first_map` only with intersection; bitwise
+    ufuncs are `int_only`; un-seeded rows fold one of the seven ufuncs that have a neutral
+    element; `dtype_out` is absent, or `float64` on a row seeded with the first map; no row
+    is for a boolean array -/
+def rowShape (r : OpRow) : Bool :=
+  r.withSpec == r && !isUfuncRow r && !(r.fillFirst && r.union) &&
+  (!isBitUfunc r.ufunc || r.intOnly) &&
+  (r.fillFirst || namedUfuncs.contains r.ufunc) &&
+  (r.dtypeOut == "" || (r.dtypeOut == "f8" && r.fillFirst)) &&
+  r.promoted != "b1"
+
+/-- **generated obligation** (re-proved on every run) -/
+theorem opsTable_shape : opsTable.all rowShape = true := by
+  decide
+
+theorem rowShape_of_mem {r : OpRow} (hr : r ∈ opsTable) :
+    r.withSpec = r ∧ isUfuncRow r = false ∧ ¬ (r.fillFirst = true ∧ r.union = true) ∧
+    (isBitUfunc r.ufunc = true → r.intOnly = true) ∧
+    (r.fillFirst = false → r.ufunc ∈ namedUfuncs) ∧
+    (r.dtypeOut = "" ∨ (r.dtypeOut = "f8" ∧ r.fillFirst = true)) ∧ r.promoted ≠ "b1" := by
+  have h := List.all_eq_true.1 opsTable_shape r hr
+  unfold rowShape at h
+  simp only [Bool.and_eq_true, Bool.or_eq_true, Bool.not_eq_true', beq_iff_eq, bne_iff_ne, ne_eq,
+    List.contains_iff_mem, Bool.and_eq_false_iff] at h
+  obtain ⟨⟨⟨⟨⟨⟨h1, h2⟩, h3⟩, h4⟩, h5⟩, h6⟩, h7⟩ := h
+  refine ⟨h1, h2, ?_, ?_, ?_, h6, h7⟩
+  · rintro ⟨a, b⟩; rcases h3 with h | h <;> simp_all
+  · intro hb; rcases h4 with h | h
+    · rw [hb] at h; cases h
+    · exact h
+  · intro hf; rcases h5 with h | h
+    · rw [hf] at h; cases h
+    · exact h
+
+
+theorem ok_wf_kind {maps : List MapObj} (hok : ∀ m ∈ maps, m.Ok) : ∀ m ∈ maps, m.WF ∧ m.KindOk :=
+  fun m hm => ⟨(hok m hm).1, (hok m hm).2.1⟩
+
+/-- **C06 (API), well-formedness**: a union / intersection operation on well-formed, well-typed
+    maps returns a well-formed, well-typed map -/
+theorem api_multi_ok {r : OpRow} (hr : r ∈ opsTable) {maps : List MapObj} (hok : ∀ m ∈ maps, m.Ok)
+    {m' : MapObj} (h : apiMultiOp r.withSpec maps = .ok m') : m'.Ok :=
+  Ok.apiMultiOp hok
+    (withSpec_dtypeOut r (by
+      have := List.all_eq_true.1 WFApi.opsTable_dtypeOut r hr
+      simpa using this)) h
+
+/-- **C06 (API), result type**: configuration and sentinel are the FIRST map's; the kind is a
+    function of the first map, of `dtype_out`, and of whether the combined coverage is empty
+    — never of the other maps' types -/
+theorem api_multi_type {r : OpRow} (hr : r ∈ opsTable) {first : MapObj} {rest : List MapObj}
+    (hok : ∀ m ∈ first :: rest, m.Ok) {m' : MapObj}
+    (h : apiMultiOp r.withSpec (first :: rest) = .ok m') :
+    m'.covord = first.covord ∧ m'.spord = first.spord ∧ m'.sent = first.sent ∧ m'.cache = none ∧
+      m'.kind = if anyCov r first (first :: rest) then multiKindOut first.kind r.dtypeOut
+                else first.kind := by
+  rw [(rowShape_of_mem hr).1] at h
+  obtain ⟨f, rs, hfr, _, h1, h2, h3, h4, h5, _⟩ := ok_sem (ok_wf_kind hok) h
+  cases hfr
+  exact ⟨h1, h2, h3, h4, h5⟩
+
+/-- the operations without `dtype_out` (all but `divide_intersection`) return a map of the
+    first map's kind, unconditionally -/
+theorem api_multi_kind_named {r : OpRow} (hr : r ∈ opsTable) (hd : r.dtypeOut = "")
+    {first : MapObj} {rest : List MapObj} (hok : ∀ m ∈ first :: rest, m.Ok) {m' : MapObj}
+    (h : apiMultiOp r.withSpec (first :: rest) = .ok m') : m'.kind = first.kind := by
+  obtain ⟨hws, _, _, _, _, _, hpr⟩ := rowShape_of_mem hr
+  rw [hws] at h
+  obtain ⟨f, rs, hfr, _, _, _, _, _, h5, _, _, hmain, _⟩ := ok_sem (ok_wf_kind hok) h
+  cases hfr
+  rw [h5]
+  split
+  · rename_i hac
+    have hpo := (hmain hac).1
+    have hparse : parseDTCode r.dtypeOut = none := by rw [hd]; rfl
+    unfold kindOut multiKindOut
+    rw [hparse]
+    cases hk : first.kind with
+    | packed =>
+      exfalso
+      unfold promotedOk dtOut at hpo
+      rw [hparse, hk] at hpo
+      exact hpr (eq_of_beq hpo)
+    | _ => rfl
+  · rfl
+
+/-- `divide_intersection` (`dtype_out = float64`): a `float64` map — **provided the combined
+    coverage is not empty** (see `api_multi_kind_divide_empty` for what happens otherwise) -/
+theorem api_multi_kind_divide_partial {r : OpRow} (hr : r ∈ opsTable) (hd : r.dtypeOut = "f8")
+    {first : MapObj} {rest : List MapObj} (hok : ∀ m ∈ first :: rest, m.Ok) {m' : MapObj}
+    (h : apiMultiOp r.withSpec (first :: rest) = .ok m')
+    (hcov : anyCov r first (first :: rest) = true) : m'.kind = .plain (.flt 64) := by
+  rw [(api_multi_type hr hok h).2.2.2.2, hcov, if_pos rfl, hd]
+  unfold multiKindOut
+  rw [show parseDTCode "f8" = some (.flt 64) from rfl]
+
+/-- … and with an EMPTY coverage intersection the result is `make_empty_like(first)`: a map of
+    the first map's own type, whatever `dtype_out` says -/
+theorem api_multi_kind_divide_empty {r : OpRow} (hr : r ∈ opsTable)
+    {first : MapObj} {rest : List MapObj} (hok : ∀ m ∈ first :: rest, m.Ok) {m' : MapObj}
+    (h : apiMultiOp r.withSpec (first :: rest) = .ok m')
+    (hcov : anyCov r first (first :: rest) = false) : m'.kind = first.kind := by
+  rw [(api_multi_type hr hok h).2.2.2.2, hcov]
+  rfl
+
+
+/-- **C06 (API), coverage**: the coverage mask of the result is the union (resp. intersection)
+    of the inputs' coverage masks; in particular an empty intersection gives a map without
+    coverage -/
+theorem api_multi_coverage {r : OpRow} (hr : r ∈ opsTable) {maps : List MapObj}
+    (hok : ∀ m ∈ maps, m.Ok) {m' : MapObj} (h : apiMultiOp r.withSpec maps = .ok m')
+    (k : Nat) (hk : k < m'.c.ncov) :
+    covered m'.c m'.st k =
+      if r.union then maps.any (fun m => covered m.c m.st k)
+      else maps.all (fun m => covered m.c m.st k) := by
+  rw [(rowShape_of_mem hr).1] at h
+  obtain ⟨f, rs, _, _, _, _, _, _, _, _, _, _, _, hcov⟩ := ok_sem (ok_wf_kind hok) h
+  exact hcov k hk
+
+/-- **C06 (API), the value — seeded form** (what the code computes, for ANY cell values, no
+    carrier assumption): at every pixel the result holds `denseOf` of the values of exactly
+    those inputs in which the pixel is valid — each input judged by ITS OWN kind and sentinel
+    (`ApiMulti.vals`) —, folded from the left, in list order, starting from the start value
+    `fillerOf r first` (resp. from the first map's value for the `fill_with_first_map` rows) -/
+theorem api_multi_value {r : OpRow} (hr : r ∈ opsTable) {first : MapObj} {rest : List MapObj}
+    (hok : ∀ m ∈ first :: rest, m.Ok) {m' : MapObj}
+    (h : apiMultiOp r.withSpec (first :: rest) = .ok m') (p : Nat) (hp : p < m'.npix) :
+    m'.abs p = denseOf m'.vc.sentinel (cellF r first) (fillerOf r first) r.union r.fillFirst
+      (first :: rest).length (vals (first :: rest) p) := by
+  rw [(rowShape_of_mem hr).1] at h
+  obtain ⟨f, rs, hfr, _, _, _, _, _, _, _, _, _, habs, _⟩ := ok_sem (ok_wf_kind hok) h
+  cases hfr
+  exact habs p hp
+
+/-- the hypothesis of `neutral_api` that concerns bitwise ufuncs, for a table row -/
+theorem table_bit_not_flt {r : OpRow} (hr : r ∈ opsTable) {first : MapObj} {maps : List MapObj}
+    (hacc : Accepts r first maps) (hfirst : first ∈ maps) (hff : r.fillFirst = false) :
+    isBitUfunc r.ufunc = true → (dtOut r first).isFlt = false := by
+  intro hb
+  obtain ⟨_, _, _, hio, _, hdo, _⟩ := rowShape_of_mem hr
+  have hint := (hacc.mem hfirst).2.1 (hio hb)
+  have hparse : parseDTCode r.dtypeOut = none := by
+    rcases hdo with h | ⟨_, h⟩
+    · rw [h]; rfl
+    · rw [hff] at h; cases h
+  unfold dtOut
+  rw [hparse]
+  cases hk : first.kind with
+  | plain dt => rw [hk] at hint; cases dt <;> first | rfl | cases hint
+  | packed => rfl
+  | wide n => rfl
+  | recd fs pr => rw [hk] at hint; cases hint
+
+/-- **the start value never shows** (table rows): `f (start value) x = x` for every cell `x` of
+    the carrier of the output array -/
+theorem api_multi_neutral {r : OpRow} (hr : r ∈ opsTable) (hff : r.fillFirst = false)
+    {first : MapObj} {rest : List MapObj} {m' : MapObj}
+    (h : apiMultiOp r.withSpec (first :: rest) = .ok m') {x : Val} (hx : inOut r first x = true) :
+    cellF r first (fillerOf r first) x = x := by
+  obtain ⟨hws, hnu, _, _, hnamed, _, _⟩ := rowShape_of_mem hr
+  rw [hws] at h
+  obtain ⟨f, rs, hfr, hacc, _⟩ := (ok_iff r _ m').1 h
+  cases hfr
+  exact neutral_api hacc List.mem_cons_self hnu hff (hnamed hff)
+    (table_bit_not_flt hr hacc List.mem_cons_self hff) hx
+
+/-- **C06 (API), union**: a pixel valid in NO input holds the sentinel; otherwise, with
+    `v :: vs` the values of the inputs in which it is valid (own sentinels, list order), it
+    holds the seeded fold, and — as soon as the FIRST valid value `v` is a member of the
+    carrier of the output array — the plain fold `vs.foldl f v` of exactly the valid inputs:
+    the start value never shows, and a pixel whose fold happens to equal the start value is
+    not dropped -/
+theorem api_multi_union {r : OpRow} (hr : r ∈ opsTable) (hu : r.union = true)
+    {first : MapObj} {rest : List MapObj} (hok : ∀ m ∈ first :: rest, m.Ok) {m' : MapObj}
+    (h : apiMultiOp r.withSpec (first :: rest) = .ok m') (p : Nat) (hp : p < m'.npix) :
+    (vals (first :: rest) p = [] → m'.abs p = m'.vc.sentinel) ∧
+    (∀ v vs, vals (first :: rest) p = v :: vs →
+      m'.abs p = vs.foldl (cellF r first) (cellF r first (fillerOf r first) v) ∧
+      (inOut r first v = true → m'.abs p = vs.foldl (cellF r first) v)) := by
+  have hval := api_multi_value hr hok h p hp
+  rw [hu] at hval
+  have hff : r.fillFirst = false := by
+    cases hf : r.fillFirst with
+    | false => rfl
+    | true => exact absurd ⟨hf, hu⟩ (rowShape_of_mem hr).2.2.1
+  refine ⟨fun hnil => by rw [hval, hnil]; rfl, fun v vs hvs => ?_⟩
+  rw [hvs, denseOf_union_cons] at hval
+  refine ⟨hval, fun hx => ?_⟩
+  rw [hval, api_multi_neutral hr hff h hx]
+
+/-- **C06 (API), union, validity**: a pixel is valid in the result iff it is valid in some
+    input AND the folded value does not read as unset under the result's rule (a fold that
+    lands on the first map's sentinel reads as unset: documented) -/
+theorem api_multi_union_valid {r : OpRow} (hr : r ∈ opsTable) (hu : r.union = true)
+    {first : MapObj} {rest : List MapObj} (hok : ∀ m ∈ first :: rest, m.Ok) {m' : MapObj}
+    (h : apiMultiOp r.withSpec (first :: rest) = .ok m') (p : Nat) (hp : p < m'.npix) :
+    m'.vc.valid (m'.abs p) = true ↔
+      ∃ v vs, vals (first :: rest) p = v :: vs ∧
+        m'.vc.valid (vs.foldl (cellF r first) (cellF r first (fillerOf r first) v)) = true := by
+  obtain ⟨h0, h1⟩ := api_multi_union hr hu hok h p hp
+  have hbl : m'.BlankInvalid := (api_multi_ok hr hok h).2.1.blankInvalid
+  cases hvs : vals (first :: rest) p with
+  | nil =>
+    rw [h0 hvs]
+    constructor
+    · intro hv; rw [hbl] at hv; cases hv
+    · rintro ⟨v, vs, hc, _⟩; cases hc
+  | cons v vs =>
+    rw [(h1 v vs hvs).1]
+    constructor
+    · intro hv; exact ⟨v, vs, rfl, hv⟩
+    · rintro ⟨v', vs', hc, hv⟩; cases hc; exact hv
+
+
+/-- **C06 (API), intersection**: a pixel that is unset in SOME input (by that input's own
+    sentinel) holds the sentinel; a pixel valid in EVERY input holds the left fold of all the
+    inputs' values in list order — started from the first map's value: literally so for the
+    `fill_with_first_map` rows (divide, floor_divide), and for the other rows as soon as the
+    first map's value is a member of the carrier of the output array (the start value is
+    neutral); without that membership the seeded form still says exactly what is stored -/
+theorem api_multi_intersection {r : OpRow} (hr : r ∈ opsTable) (hu : r.union = false)
+    {first : MapObj} {rest : List MapObj} (hok : ∀ m ∈ first :: rest, m.Ok) {m' : MapObj}
+    (h : apiMultiOp r.withSpec (first :: rest) = .ok m') (p : Nat) (hp : p < m'.npix) :
+    ((∃ m ∈ first :: rest, m.vc.valid (m.abs p) = false) → m'.abs p = m'.vc.sentinel) ∧
+    ((∀ m ∈ first :: rest, m.vc.valid (m.abs p) = true) →
+      (r.fillFirst = true →
+        m'.abs p = (rest.map (·.abs p)).foldl (cellF r first) (first.abs p)) ∧
+      (r.fillFirst = false →
+        m'.abs p = (rest.map (·.abs p)).foldl (cellF r first)
+          (cellF r first (fillerOf r first) (first.abs p)) ∧
+        (inOut r first (first.abs p) = true →
+          m'.abs p = (rest.map (·.abs p)).foldl (cellF r first) (first.abs p)))) := by
+  have hval := api_multi_value hr hok h p hp
+  rw [hu] at hval
+  constructor
+  · rintro ⟨m, hm, hinv⟩
+    rw [hval]
+    apply denseOf_inter_ne
+    intro hlen
+    have := (vals_length_eq_iff _ p).1 hlen m hm
+    rw [hinv] at this; cases this
+  · intro hall
+    have hvs := vals_all _ p hall
+    have hlen : (vals (first :: rest) p).length = (first :: rest).length :=
+      (vals_length_eq_iff _ p).2 hall
+    rw [hvs, List.map_cons] at hval hlen
+    constructor
+    · intro hff
+      rw [hff, denseOf_inter_first _ _ _ _ _ _ hlen] at hval
+      exact hval
+    · intro hff
+      rw [hff, denseOf_inter_seeded _ _ _ _ _ _ hlen] at hval
+      refine ⟨hval, fun hx => ?_⟩
+      rw [hval, api_multi_neutral hr hff h hx]
+
+/-- **C06 (API), intersection, validity**: valid in the result iff valid in EVERY input and the
+    folded value does not read as unset under the result's rule -/
+theorem api_multi_intersection_valid {r : OpRow} (hr : r ∈ opsTable) (hu : r.union = false)
+    {first : MapObj} {rest : List MapObj} (hok : ∀ m ∈ first :: rest, m.Ok) {m' : MapObj}
+    (h : apiMultiOp r.withSpec (first :: rest) = .ok m') (p : Nat) (hp : p < m'.npix) :
+    m'.vc.valid (m'.abs p) = true ↔
+      (∀ m ∈ first :: rest, m.vc.valid (m.abs p) = true) ∧
+        m'.vc.valid ((rest.map (·.abs p)).foldl (cellF r first)
+          (if r.fillFirst then first.abs p
+           else cellF r first (fillerOf r first) (first.abs p))) = true := by
+  obtain ⟨h0, h1⟩ := api_multi_intersection hr hu hok h p hp
+  have hbl : m'.BlankInvalid := (api_multi_ok hr hok h).2.1.blankInvalid
+  by_cases hall : ∀ m ∈ first :: rest, m.vc.valid (m.abs p) = true
+  · have hv : m'.abs p = (rest.map (·.abs p)).foldl (cellF r first)
+          (if r.fillFirst then first.abs p
+           else cellF r first (fillerOf r first) (first.abs p)) := by
+      cases hff : r.fillFirst with
+      | true => exact (h1 hall).1 hff
+      | false => exact ((h1 hall).2 hff).1
+    rw [← hv]
+    exact ⟨fun h => ⟨hall, h⟩, fun h => h.2⟩
+  · have hex : ∃ m ∈ first :: rest, m.vc.valid (m.abs p) = false := by
+      apply Classical.byContradiction
+      intro hne
+      apply hall
+      intro m hm
+      cases hv : m.vc.valid (m.abs p) with
+      | true => rfl
+      | false => exact absurd ⟨m, hm, hv⟩ hne
+    rw [h0 hex]
+    constructor
+    · intro hv; rw [hbl] at hv; cases hv
+    · intro hv; exact absurd hv.1 hall
+
+/-- what "reads as unset" means in the result: for every kind but wide masks, equality with
+    the FIRST map's sentinel; for wide masks, all bytes zero -/
+theorem api_multi_valid_rule {r : OpRow} (hr : r ∈ opsTable) {first : MapObj} {rest : List MapObj}
+    (hok : ∀ m ∈ first :: rest, m.Ok) {m' : MapObj}
+    (h : apiMultiOp r.withSpec (first :: rest) = .ok m') :
+    (∀ n, first.kind = .wide n → m'.kind = .wide n ∧
+      ∀ bs, m'.vc.valid (.bytes bs) = bs.any (· != 0)) ∧
+    ((∀ n, first.kind ≠ .wide n) → ∀ x, m'.vc.valid x = (x != first.sent)) := by
+  obtain ⟨_, _, hs, _, hk⟩ := api_multi_type hr hok h
+  obtain ⟨hws, _, _, _, _, hdo, _⟩ := rowShape_of_mem hr
+  rw [hws] at h
+  obtain ⟨f, rs, hfr, hacc, _⟩ := (ok_iff r _ m').1 h
+  cases hfr
+  have hrec := (hacc.mem List.mem_cons_self).1
+  have hwf : ∀ n, first.kind = .wide n → r.fillFirst = false := by
+    intro n hn
+    cases hf : r.fillFirst with
+    | false => rfl
+    | true => exact absurd ⟨by unfold isWide; rw [hn], hf⟩ hacc.2.2.2
+  constructor
+  · intro n hn
+    have hk' : m'.kind = .wide n := by
+      rw [hk]
+      split
+      · rcases hdo with hd | ⟨_, hf⟩
+        · unfold multiKindOut; rw [hd, hn]; rfl
+        · rw [hwf n hn] at hf; cases hf
+      · exact hn
+    refine ⟨hk', fun bs => ?_⟩
+    unfold MapObj.vc
+    rw [hk']
+    rfl
+  · intro hnw x
+    unfold MapObj.vc
+    rw [hs]
+    have : (∃ d, m'.kind = .plain d) ∨ m'.kind = .packed := by
+      rw [hk]
+      split
+      · rcases kindOut_cases r first hrec with ⟨d, hd⟩ | ⟨n, hn⟩
+        · exact Or.inl ⟨d, hd⟩
+        · exfalso
+          unfold kindOut multiKindOut at hn
+          cases hk1 : first.kind with
+          | wide n' => exact hnw n' hk1
+          | recd fs pr => rw [hk1] at hrec; cases hrec
+          | plain dt => rw [hk1] at hn; cases hp : parseDTCode r.dtypeOut <;> rw [hp] at hn <;> cases hn
+          | packed => rw [hk1] at hn; cases hp : parseDTCode r.dtypeOut <;> rw [hp] at hn <;> cases hn
+      · cases hk1 : first.kind with
+        | wide n' => exact absurd hk1 (hnw n')
+        | recd fs pr => rw [hk1] at hrec; cases hrec
+        | plain dt => exact Or.inl ⟨dt, rfl⟩
+        | packed => exact Or.inr rfl
+    rcases this with ⟨d, hd⟩ | hd <;> rw [hd] <;> rfl
+
+
+/-- the result type does not depend on the other maps: two successful calls with the same
+    first map agree on configuration and sentinel, and — when their combined coverages are
+    both empty or both non-empty — on the kind -/
+theorem api_multi_type_first {r : OpRow} (hr : r ∈ opsTable) {first : MapObj}
+    {rest₁ rest₂ : List MapObj} (hok₁ : ∀ m ∈ first :: rest₁, m.Ok) (hok₂ : ∀ m ∈ first :: rest₂, m.Ok)
+    {m₁ m₂ : MapObj} (h₁ : apiMultiOp r.withSpec (first :: rest₁) = .ok m₁)
+    (h₂ : apiMultiOp r.withSpec (first :: rest₂) = .ok m₂) :
+    m₁.covord = m₂.covord ∧ m₁.spord = m₂.spord ∧ m₁.sent = m₂.sent ∧
+    (anyCov r first (first :: rest₁) = anyCov r first (first :: rest₂) → m₁.kind = m₂.kind) := by
+  obtain ⟨a1, a2, a3, _, a5⟩ := api_multi_type hr hok₁ h₁
+  obtain ⟨b1, b2, b3, _, b5⟩ := api_multi_type hr hok₂ h₂
+  refine ⟨by rw [a1, b1], by rw [a2, b2], by rw [a3, b3], fun hc => ?_⟩
+  rw [a5, b5, hc]
+
+/-! ### errors -/
+
+/-- **C06 (API), the call as a decision list** (any row): `ApiMulti.spec` -/
+theorem api_multi_spec (row : OpRow) (maps : List MapObj) : apiMultiOp row maps = spec row maps :=
+  apiMultiOp_eq_spec row maps
+
+/-- **C06 (API), errors — exactly when**: the call raises `e` iff the validation phase raises
+    `e` (`structErr`: fewer than two maps → RuntimeError; the first map failing its check
+    decides — a record map → NotImplementedError, an integer-only operation on a non-integer
+    map → ValueError, other orders or wide-mask widths than the first map → RuntimeError; a
+    wide-mask first map on a `fill_with_first_map` row → RuntimeError), or validation passes,
+    the combined coverage is NOT empty, and the data-dependent phase raises `e` (`dataErr`:
+    the row is not a row of the first map's dtype → ValueError; one of the three exactness
+    guards of the model → `inexact`, no claim) -/
+theorem api_multi_error_iff {r : OpRow} (hr : r ∈ opsTable) (maps : List MapObj) (e : Err) :
+    apiMultiOp r.withSpec maps = .error e ↔
+      structErr r maps = some e ∨
+      (structErr r maps = none ∧
+        ∃ first rest, maps = first :: rest ∧ dataErr r first maps = some e) := by
+  rw [(rowShape_of_mem hr).1]
+  exact error_iff r maps e
+
+/-- an empty list or a single map: RuntimeError -/
+theorem api_multi_err_short (row : OpRow) (maps : List MapObj) (h : maps.length < 2) :
+    apiMultiOp row maps = .error .runtime :=
+  (error_iff row maps .runtime).2 (Or.inl (structErr_short row maps h))
+
+/-- the first map that fails its check decides the error (`mapCheck_some_iff` reads the
+    check: record → NotImplementedError, integer-only on a non-integer map → ValueError,
+    mixed orders / wide-mask widths → RuntimeError) -/
+theorem api_multi_err_check {r : OpRow} (hr : r ∈ opsTable) {first : MapObj}
+    {rest pre post : List MapObj} {m : MapObj} {e : Err}
+    (hsplit : first :: rest = pre ++ m :: post) (h2 : rest ≠ [])
+    (hpre : ∀ x ∈ pre, mapCheck r first x = none) (hm : mapCheck r first m = some e) :
+    apiMultiOp r.withSpec (first :: rest) = .error e := by
+  obtain ⟨hws, _, hfu, _⟩ := rowShape_of_mem hr
+  rw [hws]
+  exact (error_iff r _ e).2 (Or.inl (structErr_of_check hsplit h2 hfu hpre hm))
+
+/-- wide masks cannot be divided: a wide-mask first map on a `fill_with_first_map` row
+    (divide_intersection, floor_divide_intersection) is a RuntimeError -/
+theorem api_multi_err_wide_first {r : OpRow} (hr : r ∈ opsTable) {first : MapObj}
+    {rest : List MapObj} (h2 : rest ≠ [])
+    (hall : ∀ x ∈ first :: rest, mapCheck r first x = none)
+    (hw : isWide first.kind = true) (hff : r.fillFirst = true) :
+    apiMultiOp r.withSpec (first :: rest) = .error .runtime := by
+  obtain ⟨hws, _, hfu, _⟩ := rowShape_of_mem hr
+  rw [hws]
+  exact (error_iff r _ .runtime).2 (Or.inl (structErr_wide_first h2 hfu hall hw hff))
+
+/-- with an empty combined coverage nothing else is looked at: the call succeeds with
+    `make_empty_like(first)` — whatever the row's dtype, the sentinels, the cell values -/
+theorem api_multi_empty {r : OpRow} (hr : r ∈ opsTable) {first : MapObj} {rest : List MapObj}
+    (hacc : Accepts r first (first :: rest)) (hcov : anyCov r first (first :: rest) = false) :
+    apiMultiOp r.withSpec (first :: rest) = .ok (emptyLike first) := by
+  rw [(rowShape_of_mem hr).1]
+  exact (ok_iff r _ _).2 ⟨first, rest, rfl, hacc, Or.inl ⟨hcov, rfl⟩⟩
+
+/-- for well-formed, well-typed inputs that pass validation the only errors left are the
+    ValueError of a row that is not the first map's (e.g. a boolean first map: no row of the
+    table is for a boolean array) and the `inexact` guards; never an IndexError -/
+theorem api_multi_err_data {r : OpRow} (hr : r ∈ opsTable) {first : MapObj} {rest : List MapObj}
+    (hok : ∀ m ∈ first :: rest, m.Ok) (hacc : Accepts r first (first :: rest)) {e : Err}
+    (h : apiMultiOp r.withSpec (first :: rest) = .error e) :
+    anyCov r first (first :: rest) = true ∧
+    ((promotedOk r first = false ∧ e = .value) ∨ (promotedOk r first = true ∧ e = .inexact)) := by
+  rw [(rowShape_of_mem hr).1] at h
+  have hs : structErr r (first :: rest) = none :=
+    (structErr_none_iff r _).2 ⟨first, rest, rfl, hacc⟩
+  rcases (error_iff r _ e).1 h with h | ⟨_, f, rs, hfr, hd⟩
+  · rw [hs] at h; cases h
+  · cases hfr
+    have hni := dataErr_ne_index hacc List.mem_cons_self (ok_wf_kind hok)
+    unfold dataErr at hd hni
+    cases hac : anyCov r first (first :: rest) with
+    | false => rw [hac] at hd; cases hd
+    | true =>
+      rw [hac] at hd hni
+      simp only [Bool.not_true, Bool.false_eq_true, if_false] at hd hni
+      refine ⟨rfl, ?_⟩
+      cases hp : promotedOk r first with
+      | false => rw [hp] at hd; simp only [Bool.not_false, if_true] at hd; cases hd; exact Or.inl ⟨rfl, rfl⟩
+      | true =>
+        rw [hp] at hd hni
+        simp only [Bool.not_true, Bool.false_eq_true, if_false] at hd hni
+        refine Or.inr ⟨rfl, ?_⟩
+        split at hd
+        · cases hd; rfl
+        split at hd
+        · cases hd; rfl
+        split at hd
+        · rename_i h6 h7 _ hc
+          rw [hc, if_neg h6, if_neg h7] at hni
+          exact absurd rfl hni
+        · split at hd
+          · cases hd; rfl
+          · cases hd
+
+/-- a boolean first map (plain or bit-packed) with a non-empty combined coverage: ValueError on
+    every row without `dtype_out` (no row of the table is for a boolean array) -/
+theorem api_multi_err_bool {r : OpRow} (hr : r ∈ opsTable) (hd : r.dtypeOut = "")
+    {first : MapObj} {rest : List MapObj} (hacc : Accepts r first (first :: rest))
+    (hb : first.kind.isBool = true) (hcov : anyCov r first (first :: rest) = true) :
+    apiMultiOp r.withSpec (first :: rest) = .error .value := by
+  obtain ⟨hws, _, _, _, _, _, hpr⟩ := rowShape_of_mem hr
+  rw [hws]
+  have hs : structErr r (first :: rest) = none :=
+    (structErr_none_iff r _).2 ⟨first, rest, rfl, hacc⟩
+  refine (error_iff r _ .value).2 (Or.inr ⟨hs, first, rest, rfl, ?_⟩)
+  unfold dataErr
+  rw [hcov]
+  have hparse : parseDTCode r.dtypeOut = none := by rw [hd]; rfl
+  have hp : promotedOk r first = false := by
+    unfold promotedOk dtOut
+    rw [hparse]
+    cases hk : first.kind with
+    | plain dt =>
+      rw [hk] at hb
+      cases dt with
+      | bool => simpa [isWide, Kind.dt, dtCode] using hpr
+      | int b sg => cases hb
+      | flt b => cases hb
+    | packed => simpa [isWide, Kind.dt, dtCode] using hpr
+    | wide n => rw [hk] at hb; cases hb
+    | recd fs pr => rw [hk] at hb; cases hb
+  rw [hp]
+  rfl
+
+/-- the start value the MODEL folds with is the filler found in the CODE: for the row of the
+    first map's dtype (rows seeded with the first map, and `int_only` rows on float arrays —
+    rejected before any filler is used — excepted) -/
+theorem opsTable_filler : opsTable.all (fun r =>
+    r.fillFirst || (r.intOnly && isFltCode r.dt) ||
+    match parseDTCode (if r.dt == "u1w" then "u1" else r.dt) with
+    | some dt => neutralFiller r.ufunc dt == some r.filler
+    | none => false) = true := by
+  decide
+
+theorem api_multi_filler_is_code {r : OpRow} (hr : r ∈ opsTable) (hff : r.fillFirst = false)
+    (hio : ¬ (r.intOnly = true ∧ isFltCode r.dt = true)) {first : MapObj}
+    (hdt : parseDTCode (if r.dt == "u1w" then "u1" else r.dt) = some (dtArr r first)) :
+    fillerSpec r first = r.filler := by
+  have h := List.all_eq_true.1 opsTable_filler r hr
+  simp only [Bool.or_eq_true, Bool.and_eq_true] at h
+  rcases h with (h | h) | h
+  · rw [hff] at h; cases h
+  · exact absurd h hio
+  · rw [hdt] at h
+    simp only [beq_iff_eq] at h
+    unfold fillerSpec
+    rw [(rowShape_of_mem hr).2.1, hff, h]
+    rfl
+
+
+/-- **any row** (in particular the rows the driver builds for `ufunc_union` /
+    `ufunc_intersection`, whose caller-supplied `filler_value` is documented as the starting
+    value): well-formedness, result type, coverage and the SEEDED value — no neutrality claim -/
+theorem api_multi_any_row {row : OpRow} {first : MapObj} {rest : List MapObj}
+    (hok : ∀ m ∈ first :: rest, m.Ok) {m' : MapObj}
+    (h : apiMultiOp row (first :: rest) = .ok m') :
+    m'.WF ∧ m'.covord = first.covord ∧ m'.spord = first.spord ∧ m'.sent = first.sent ∧
+    (∀ p, p < m'.npix → m'.abs p =
+      denseOf m'.vc.sentinel (cellF row first) (fillerOf row first) row.union row.fillFirst
+        (first :: rest).length (vals (first :: rest) p)) ∧
+    (∀ k, k < m'.c.ncov → covered m'.c m'.st k =
+      if row.union then (first :: rest).any (fun m => covered m.c m.st k)
+      else (first :: rest).all (fun m => covered m.c m.st k)) ∧
+    (isUfuncRow row = true → (∀ n, first.kind ≠ .wide n) → fillerOf row first = row.filler) := by
+  obtain ⟨f, rs, hfr, _, h1, h2, h3, _, _, hwf, _, _, habs, hcov⟩ := ok_sem (ok_wf_kind hok) h
+  cases hfr
+  refine ⟨hwf, h1, h2, h3, habs, hcov, fun hu hnw => ?_⟩
+  unfold fillerOf fillerSpec
+  rw [hu]
+  simp only [Bool.true_or, if_true]
+  split
+  · rename_i n _ _ hk _; exact absurd hk (hnw n)
+  · rfl
+
+/-! ### non-vacuity, and the one statement that fails -/
+
+/-- the row of the named operation for first maps of dtype code `dt` -/
+def rowOf (nm dt : String) : OpRow :=
+  (opsTable.find? fun r => r.name == nm && r.dt == dt).getD
+    ⟨"", "", "", .num 0 0, "", false, false, false, ""⟩
+
+/-- an `int32` map with `nside_coverage = 1`, `nside_sparse = 2` (48 pixels, 4 per block) -/
+def exI4 (sent : Option Val) (pix : List Nat) (vs : List Int) : Except Err MapObj := do
+  let m ← apiMakeEmpty 0 1 (.plain (.int 32 true)) sent []
+  apiUpdate m "replace" pix (some (vs.map (Val.num · 0))) false
+
+/-- a two-byte wide mask -/
+def exWide (pix : List Nat) (row : List Nat) : Except Err MapObj := do
+  let m ← apiMakeEmpty 0 1 (.wide 2) none []
+  apiUpdate m "replace" pix (some [.bytes row]) true
+
+example : rowOf "sum_union" "i4" ∈ opsTable ∧ rowOf "max_intersection" "i4" ∈ opsTable ∧
+    rowOf "divide_intersection" "i4" ∈ opsTable ∧ rowOf "or_union" "u1w" ∈ opsTable ∧
+    rowOf "and_intersection" "u1w" ∈ opsTable := by decide
+
+/-- `sum_union` of two `int32` maps with DIFFERENT sentinels (default and 7) and partially
+    overlapping coverage: hypotheses of `api_multi_union` hold; pixel 2 is valid in both
+    (−5 and 5), its fold is 0 — the start value — and it is KEPT (valid, value 0); pixel 1 /
+    pixels 3 and 30 are valid in one input only; pixel 0 in none; the result has the first
+    map's sentinel and kind; pixel 5 holds 7 in the first map — the SECOND map's sentinel — and
+    is valid (each input is judged by its own sentinel) -/
+example : okAnd (do
+      let a ← exI4 none [1, 2, 5] [5, -5, 7]
+      let b ← exI4 (some (.num 7 0)) [2, 3, 30] [5, 9, 1]
+      let m' ← apiMultiOp (rowOf "sum_union" "i4").withSpec [a, b]
+      pure (a, b, m'))
+    (fun (a, b, m') => decide a.Ok && decide b.Ok && decide m'.Ok &&
+      (vals [a, b] 5 == [.num 7 0]) && (m'.abs 5 == .num 7 0) && m'.vc.valid (m'.abs 5) &&
+      (vals [a, b] 2 == [.num (-5) 0, .num 5 0]) && inOut (rowOf "sum_union" "i4") a (.num (-5) 0) &&
+      (m'.abs 2 == .num 0 0) && m'.vc.valid (m'.abs 2) &&
+      (m'.abs 1 == .num 5 0) && (m'.abs 3 == .num 9 0) && (m'.abs 30 == .num 1 0) &&
+      (vals [a, b] 0 == []) && (m'.abs 0 == m'.vc.sentinel) && !m'.vc.valid (m'.abs 0) &&
+      (m'.sent == a.sent) && (m'.kind == a.kind) && (b.sent == .num 7 0) &&
+      covered m'.c m'.st 0 && covered m'.c m'.st 7 && !covered m'.c m'.st 3) = true := by
+  decide +kernel
+
+/-- `max_intersection`: only pixel 2 is valid in both inputs; all-negative values give the
+    negative maximum (the start value −2³¹ never shows) -/
+example : okAnd (do
+      let a ← exI4 none [1, 2] [-5, -6]
+      let b ← exI4 (some (.num 0 0)) [2, 3] [-9, -1]
+      let m' ← apiMultiOp (rowOf "max_intersection" "i4").withSpec [a, b]
+      pure (a, b, m'))
+    (fun (a, b, m') => decide a.Ok && decide b.Ok &&
+      (m'.abs 2 == .num (-6) 0) && m'.vc.valid (m'.abs 2) &&
+      !m'.vc.valid (m'.abs 1) && !m'.vc.valid (m'.abs 3) &&
+      inOut (rowOf "max_intersection" "i4") a (a.abs 2)) = true := by
+  decide +kernel
+
+/-- `divide_intersection` (seeded with the first map, `float64` output): 8 / 2 = 4 at the only
+    common pixel -/
+example : okAnd (do
+      let a ← exI4 none [1, 2] [6, 8]
+      let b ← exI4 none [2, 3] [2, 4]
+      let m' ← apiMultiOp (rowOf "divide_intersection" "i4").withSpec [a, b]
+      pure (a, b, m'))
+    (fun (a, b, m') => decide a.Ok && decide b.Ok && decide m'.Ok &&
+      (m'.abs 2 == .num 4 0) && (m'.kind == .plain (.flt 64)) && (m'.sent == a.sent) &&
+      anyCov (rowOf "divide_intersection" "i4") a [a, b] &&
+      !m'.vc.valid (m'.abs 1) && !m'.vc.valid (m'.abs 3)) = true := by
+  decide +kernel
+
+/-- wide masks (two bytes): `or_union` and `and_intersection`, start rows `[0,0]` / `[255,255]` -/
+example : okAnd (do
+      let a ← exWide [1, 2] [1, 128]
+      let b ← exWide [2, 3] [6, 128]
+      let u ← apiMultiOp (rowOf "or_union" "u1w").withSpec [a, b]
+      let i ← apiMultiOp (rowOf "and_intersection" "u1w").withSpec [a, b]
+      pure (a, b, u, i))
+    (fun (a, b, u, i) => decide a.Ok && decide b.Ok && decide u.Ok && decide i.Ok &&
+      (u.abs 1 == .bytes [1, 128]) && (u.abs 2 == .bytes [7, 128]) && (u.abs 3 == .bytes [6, 128]) &&
+      (i.abs 2 == .bytes [0, 128]) && i.vc.valid (i.abs 2) && !i.vc.valid (i.abs 1) &&
+      inOut (rowOf "or_union" "u1w") a (a.abs 1) && (u.kind == a.kind) &&
+      (fillerOf (rowOf "and_intersection" "u1w") a == .bytes [255, 255])) = true := by
+  decide +kernel
+
+/-- **the statement that FAILS**: "the result of `divide_intersection` is a `float64` map".
+    Two well-formed `int32` maps whose coverage masks do not intersect: the call succeeds and
+    returns an `int32` map (`make_empty_like(map_list[0])`), while with one common coverage
+    pixel — even without any common valid pixel — the result is `float64` (example above).
+    The output dtype of the documented `dtype_out` depends on the data. -/
+theorem api_multi_kind_divide_counterexample :
+    okAnd (do
+      let a ← exI4 none [1, 2] [5, 6]
+      let b ← exI4 none [20, 21] [5, 6]
+      let m' ← apiMultiOp (rowOf "divide_intersection" "i4").withSpec [a, b]
+      pure (a, b, m'))
+    (fun (a, b, m') => decide a.Ok && decide b.Ok && decide m'.Ok &&
+      ((rowOf "divide_intersection" "i4").dtypeOut == "f8") &&
+      (m'.kind == .plain (.int 32 true)) && (m'.kind != .plain (.flt 64)) &&
+      !anyCov (rowOf "divide_intersection" "i4") a [a, b]) = true := by
+  decide +kernel
+
+/-! the same through the protocol driver (`runLines`): `info c` answers `i4`, `info d` answers `f8` -/
+#guard ((runLines [
+    "cfg a kind=plain dtype=i4 covord=0 spord=1",
+    "cfg b kind=plain dtype=i4 covord=0 spord=1",
+    "upd a pix=1,2 vals=5,6",
+    "upd b pix=20,21 vals=5,6",
+    "mop name=divide_intersection maps=a,b r=c"]).get? "c").map (·.kind) == some (.plain (.int 32 true))
+#guard ((runLines [
+    "cfg a kind=plain dtype=i4 covord=0 spord=1",
+    "cfg b kind=plain dtype=i4 covord=0 spord=1",
+    "upd a pix=1,2 vals=5,6",
+    "upd b pix=2,3 vals=2,6",
+    "mop name=divide_intersection maps=a,b r=d"]).get? "d").map (·.kind) == some (.plain (.flt 64))
+
+/-- an input value that is NOT representable in the output dtype (1000 in an `int32` second
+    map, first map `int8`): it is outside the carrier (`inOut` fails), the plain-fold clause
+    makes no claim, and the seeded clause says what is stored — `0 + 1000` wrapped to `int8`
+    (numpy's cast on assignment) -/
+example : okAnd (do
+      let a ← apiMakeEmpty 0 1 (.plain (.int 8 true)) none [0]
+      let b ← exI4 none [2] [1000]
+      let m' ← apiMultiOp (rowOf "sum_union" "i1").withSpec [a, b]
+      pure (a, b, m'))
+    (fun (a, b, m') => decide a.Ok && decide b.Ok && decide (rowOf "sum_union" "i1" ∈ opsTable) &&
+      (vals [a, b] 2 == [.num 1000 0]) && !inOut (rowOf "sum_union" "i1") a (.num 1000 0) &&
+      (m'.abs 2 == .num (-24) 0) && (m'.kind == .plain (.int 8 true))) = true := by
+  decide +kernel
+
+/-- the call raises `e` -/
+def isErr (r : Except Err MapObj) (e : Err) : Bool :=
+  match r with
+  | .error e' => e' == e
+  | .ok _ => false
+
+/-- errors: no map; a single map; a record map in the list; mixed orders; an integer-only
+    operation on a float map; a wide mask divided; a boolean first map -/
+example :
+    isErr (apiMultiOp (rowOf "sum_union" "i4").withSpec []) .runtime = true ∧
+    okAnd (do
+      let a ← exI4 none [1] [5]
+      let f ← apiMakeEmpty 0 1 (.plain (.flt 64)) none []
+      let c ← apiMakeEmpty 0 2 (.plain (.int 32 true)) none []
+      let rc ← apiMakeEmpty 0 1 (.recd [.int 32 true] 0) none []
+      let w ← exWide [1] [1, 0]
+      let b ← apiMakeEmpty 0 1 (.plain .bool) none [0]
+      pure (a, f, c, rc, w, b))
+    (fun (a, f, c, rc, w, b) =>
+      isErr (apiMultiOp (rowOf "sum_union" "i4").withSpec [a]) .runtime &&
+      isErr (apiMultiOp (rowOf "sum_union" "i4").withSpec [a, rc]) .notImpl &&
+      isErr (apiMultiOp (rowOf "sum_union" "i4").withSpec [a, c]) .runtime &&
+      isErr (apiMultiOp (rowOf "or_union" "i4").withSpec [a, f]) .value &&
+      isErr (apiMultiOp (rowOf "floor_divide_intersection" "u1w").withSpec [w, w]) .runtime &&
+      isErr (apiMultiOp (rowOf "sum_union" "i4").withSpec [b, b]) .value &&
+      -- a valid value of the second map equal to the FIRST map's sentinel: `inexact` (no claim)
+      (match exI4 (some (.num 0 0)) [1] [-2147483648] with
+       | .ok z => isErr (apiMultiOp (rowOf "sum_union" "i4").withSpec [a, z]) .inexact
+       | .error _ => false)) = true := by
+  decide +kernel
+
+end api
 end C06
 end HS
